@@ -1,4 +1,6 @@
 //! Engine E1 harness crate. See /verif/DESIGN.md §4.2.
+pub mod c05;
+pub mod c09;
 pub mod c10;
 pub mod src;
 
@@ -31,6 +33,99 @@ macro_rules! harnesses {
 }
 
 harnesses! {
+    #[kani::unwind(24)] c05_sv_empty => |s| c05::validator(s, &[]);
+    #[kani::unwind(24)] c05_sv_1 => |s| c05::validator(s, &[1]);
+    #[kani::unwind(24)] c05_sv_2 => |s| c05::validator(s, &[2]);
+    #[kani::unwind(24)] c05_sv_3 => |s| c05::validator(s, &[3]);
+    #[kani::unwind(24)] c05_sv_4 => |s| c05::validator(s, &[4]);
+    #[kani::unwind(24)] c05_sv_11 => |s| c05::validator(s, &[1, 1]);
+    #[kani::unwind(24)] c05_sv_12 => |s| c05::validator(s, &[1, 2]);
+    #[kani::unwind(24)] c05_sv_13 => |s| c05::validator(s, &[1, 3]);
+    #[kani::unwind(24)] c05_sv_14 => |s| c05::validator(s, &[1, 4]);
+    #[kani::unwind(24)] c05_sv_21 => |s| c05::validator(s, &[2, 1]);
+    #[kani::unwind(24)] c05_sv_22 => |s| c05::validator(s, &[2, 2]);
+    #[kani::unwind(24)] c05_sv_23 => |s| c05::validator(s, &[2, 3]);
+    #[kani::unwind(24)] c05_sv_24 => |s| c05::validator(s, &[2, 4]);
+    #[kani::unwind(24)] c05_sv_31 => |s| c05::validator(s, &[3, 1]);
+    #[kani::unwind(24)] c05_sv_32 => |s| c05::validator(s, &[3, 2]);
+    #[kani::unwind(24)] c05_sv_33 => |s| c05::validator(s, &[3, 3]);
+    #[kani::unwind(24)] c05_sv_34 => |s| c05::validator(s, &[3, 4]);
+    #[kani::unwind(24)] c05_sv_41 => |s| c05::validator(s, &[4, 1]);
+    #[kani::unwind(24)] c05_sv_42 => |s| c05::validator(s, &[4, 2]);
+    #[kani::unwind(24)] c05_sv_43 => |s| c05::validator(s, &[4, 3]);
+    #[kani::unwind(24)] c05_sv_44 => |s| c05::validator(s, &[4, 4]);
+    #[kani::unwind(24)] c05_sv_111 => |s| c05::validator(s, &[1, 1, 1]);
+    #[kani::unwind(24)] c05_sv_112 => |s| c05::validator(s, &[1, 1, 2]);
+    #[kani::unwind(24)] c05_sv_113 => |s| c05::validator(s, &[1, 1, 3]);
+    #[kani::unwind(24)] c05_sv_114 => |s| c05::validator(s, &[1, 1, 4]);
+    #[kani::unwind(24)] c05_sv_121 => |s| c05::validator(s, &[1, 2, 1]);
+    #[kani::unwind(24)] c05_sv_122 => |s| c05::validator(s, &[1, 2, 2]);
+    #[kani::unwind(24)] c05_sv_123 => |s| c05::validator(s, &[1, 2, 3]);
+    #[kani::unwind(24)] c05_sv_124 => |s| c05::validator(s, &[1, 2, 4]);
+    #[kani::unwind(24)] c05_sv_131 => |s| c05::validator(s, &[1, 3, 1]);
+    #[kani::unwind(24)] c05_sv_132 => |s| c05::validator(s, &[1, 3, 2]);
+    #[kani::unwind(24)] c05_sv_133 => |s| c05::validator(s, &[1, 3, 3]);
+    #[kani::unwind(24)] c05_sv_134 => |s| c05::validator(s, &[1, 3, 4]);
+    #[kani::unwind(24)] c05_sv_141 => |s| c05::validator(s, &[1, 4, 1]);
+    #[kani::unwind(24)] c05_sv_142 => |s| c05::validator(s, &[1, 4, 2]);
+    #[kani::unwind(24)] c05_sv_143 => |s| c05::validator(s, &[1, 4, 3]);
+    #[kani::unwind(24)] c05_sv_144 => |s| c05::validator(s, &[1, 4, 4]);
+    #[kani::unwind(24)] c05_sv_211 => |s| c05::validator(s, &[2, 1, 1]);
+    #[kani::unwind(24)] c05_sv_212 => |s| c05::validator(s, &[2, 1, 2]);
+    #[kani::unwind(24)] c05_sv_213 => |s| c05::validator(s, &[2, 1, 3]);
+    #[kani::unwind(24)] c05_sv_214 => |s| c05::validator(s, &[2, 1, 4]);
+    #[kani::unwind(24)] c05_sv_221 => |s| c05::validator(s, &[2, 2, 1]);
+    #[kani::unwind(24)] c05_sv_222 => |s| c05::validator(s, &[2, 2, 2]);
+    #[kani::unwind(24)] c05_sv_223 => |s| c05::validator(s, &[2, 2, 3]);
+    #[kani::unwind(24)] c05_sv_224 => |s| c05::validator(s, &[2, 2, 4]);
+    #[kani::unwind(24)] c05_sv_231 => |s| c05::validator(s, &[2, 3, 1]);
+    #[kani::unwind(24)] c05_sv_232 => |s| c05::validator(s, &[2, 3, 2]);
+    #[kani::unwind(24)] c05_sv_233 => |s| c05::validator(s, &[2, 3, 3]);
+    #[kani::unwind(24)] c05_sv_234 => |s| c05::validator(s, &[2, 3, 4]);
+    #[kani::unwind(24)] c05_sv_241 => |s| c05::validator(s, &[2, 4, 1]);
+    #[kani::unwind(24)] c05_sv_242 => |s| c05::validator(s, &[2, 4, 2]);
+    #[kani::unwind(24)] c05_sv_243 => |s| c05::validator(s, &[2, 4, 3]);
+    #[kani::unwind(24)] c05_sv_244 => |s| c05::validator(s, &[2, 4, 4]);
+    #[kani::unwind(24)] c05_sv_311 => |s| c05::validator(s, &[3, 1, 1]);
+    #[kani::unwind(24)] c05_sv_312 => |s| c05::validator(s, &[3, 1, 2]);
+    #[kani::unwind(24)] c05_sv_313 => |s| c05::validator(s, &[3, 1, 3]);
+    #[kani::unwind(24)] c05_sv_314 => |s| c05::validator(s, &[3, 1, 4]);
+    #[kani::unwind(24)] c05_sv_321 => |s| c05::validator(s, &[3, 2, 1]);
+    #[kani::unwind(24)] c05_sv_322 => |s| c05::validator(s, &[3, 2, 2]);
+    #[kani::unwind(24)] c05_sv_323 => |s| c05::validator(s, &[3, 2, 3]);
+    #[kani::unwind(24)] c05_sv_324 => |s| c05::validator(s, &[3, 2, 4]);
+    #[kani::unwind(24)] c05_sv_331 => |s| c05::validator(s, &[3, 3, 1]);
+    #[kani::unwind(24)] c05_sv_332 => |s| c05::validator(s, &[3, 3, 2]);
+    #[kani::unwind(24)] c05_sv_333 => |s| c05::validator(s, &[3, 3, 3]);
+    #[kani::unwind(24)] c05_sv_334 => |s| c05::validator(s, &[3, 3, 4]);
+    #[kani::unwind(24)] c05_sv_341 => |s| c05::validator(s, &[3, 4, 1]);
+    #[kani::unwind(24)] c05_sv_342 => |s| c05::validator(s, &[3, 4, 2]);
+    #[kani::unwind(24)] c05_sv_343 => |s| c05::validator(s, &[3, 4, 3]);
+    #[kani::unwind(24)] c05_sv_344 => |s| c05::validator(s, &[3, 4, 4]);
+    #[kani::unwind(24)] c05_sv_411 => |s| c05::validator(s, &[4, 1, 1]);
+    #[kani::unwind(24)] c05_sv_412 => |s| c05::validator(s, &[4, 1, 2]);
+    #[kani::unwind(24)] c05_sv_413 => |s| c05::validator(s, &[4, 1, 3]);
+    #[kani::unwind(24)] c05_sv_414 => |s| c05::validator(s, &[4, 1, 4]);
+    #[kani::unwind(24)] c05_sv_421 => |s| c05::validator(s, &[4, 2, 1]);
+    #[kani::unwind(24)] c05_sv_422 => |s| c05::validator(s, &[4, 2, 2]);
+    #[kani::unwind(24)] c05_sv_423 => |s| c05::validator(s, &[4, 2, 3]);
+    #[kani::unwind(24)] c05_sv_424 => |s| c05::validator(s, &[4, 2, 4]);
+    #[kani::unwind(24)] c05_sv_431 => |s| c05::validator(s, &[4, 3, 1]);
+    #[kani::unwind(24)] c05_sv_432 => |s| c05::validator(s, &[4, 3, 2]);
+    #[kani::unwind(24)] c05_sv_433 => |s| c05::validator(s, &[4, 3, 3]);
+    #[kani::unwind(24)] c05_sv_434 => |s| c05::validator(s, &[4, 3, 4]);
+    #[kani::unwind(24)] c05_sv_441 => |s| c05::validator(s, &[4, 4, 1]);
+    #[kani::unwind(24)] c05_sv_442 => |s| c05::validator(s, &[4, 4, 2]);
+    #[kani::unwind(24)] c05_sv_443 => |s| c05::validator(s, &[4, 4, 3]);
+    #[kani::unwind(24)] c05_sv_444 => |s| c05::validator(s, &[4, 4, 4]);
+    #[kani::unwind(24)] c09_it_00 => |s| c09::instance_type(s, 0, 0);
+    #[kani::unwind(24)] c09_it_01 => |s| c09::instance_type(s, 0, 1);
+    #[kani::unwind(24)] c09_it_02 => |s| c09::instance_type(s, 0, 2);
+    #[kani::unwind(24)] c09_it_11 => |s| c09::instance_type(s, 1, 1);
+    #[kani::unwind(24)] c09_it_12 => |s| c09::instance_type(s, 1, 2);
+    #[kani::unwind(24)] c09_it_13 => |s| c09::instance_type(s, 1, 3);
+    #[kani::unwind(24)] c09_array_len => |s| c09::array_len(s);
+    #[kani::unwind(24)] c09_format => |s| c09::format(s);
     #[kani::unwind(24)] c10_none    => |s| c10::body(s, None);
     #[kani::unwind(24)] c10_unknown => |s| c10::body(s, Some("int128"));
     #[kani::unwind(24)] c10_int8    => |s| c10::body(s, Some("int8"));
